@@ -186,6 +186,8 @@ func runC04(c *Collector, r *Rng, thorough bool) {
 			}
 		}
 	}
+	c04EnvelopeWithoutAlg(c, r)
+	c04SignedUnderProtectedAlg(c, r)
 }
 
 // c04Reuse: one message object signed, encoded, then re-signed under another algorithm (key rotation: the signature
@@ -650,6 +652,97 @@ func c04Verify(c *Collector, class, st string, h cose.Headers, ext []byte, va co
 	case "absent":
 		if len(ext) == 0 && (called || !errors.Is(err, cose.ErrAlgorithmNotFound)) {
 			c.Fail("C04/verify-absent", fmt.Sprintf("alg absent and no external data: invoked=%v err=%v", called, err), rep)
+		}
+	}
+}
+
+// c04EnvelopeWithoutAlg: hash envelopes whose protected bucket names no alg (all other required parameters present),
+// in every length-prefix spelling: VerifyHashEnvelope takes no external data, so nothing says which algorithm the
+// envelope was signed under - the verifier must not be consulted and no message is returned.
+func c04EnvelopeWithoutAlg(c *Collector, r *Rng) {
+	for _, alg := range goAlgs {
+		for vi, pm := range []*W{
+			wMap(-1, wInt(258, -1), wInt(-16, -1)),
+			wMap(-1, wInt(258, -1), wInt(-16, -1), wInt(259, -1), wTstr("text/plain", -1), wInt(260, -1), wTstr("loc", -1)),
+			wMap(-1, wInt(258, -1), wInt(-43, -1), wInt(4, -1), wBstr([]byte("kid"), -1)),
+		} {
+			for _, wd := range widthsFor(uint64(len(pm.Ser()))) {
+				pb := wBstr(pm.Ser(), wd)
+				digest := make([]byte, 32)
+				if vi == 2 {
+					digest = make([]byte, 48)
+				}
+				env := wTag(18, -1, wArr(-1, pb, wMap(-1), wBstr(digest, -1), wBstr([]byte{1, 2, 3}, -1))).Ser()
+				vf := &spyVerifier{alg: alg}
+				var msg *cose.Sign1Message
+				var err error
+				if p, _ := protect(func() { msg, err = cose.VerifyHashEnvelope(vf, env) }); p {
+					c.Fail("C04/panic", "VerifyHashEnvelope panicked", map[string]any{"data": hx(env)})
+					continue
+				}
+				c.Eval("hashenvelope-without-alg", fmt.Sprint(alg, vi, wd), true)
+				if len(vf.calls) > 0 || err == nil || msg != nil {
+					c.Fail("C04/decoded-absent", fmt.Sprintf("a hash envelope whose protected bucket has no alg: verifier invoked %d times, err=%v, message returned=%v", len(vf.calls), err, msg != nil), map[string]any{"data": hx(env), "verifier_alg": int64(alg)})
+				}
+			}
+		}
+	}
+}
+
+// c04SignedUnderProtectedAlg: every built-in signer (plain keys, and the same keys behind an opaque crypto.Signer, ECDSA
+// keys under each ES algorithm regardless of their curve): the signature it produces through each signing entry point
+// is valid, by the standard library, under the algorithm named in the protected bytes that were signed - the digest
+// is the one of that algorithm, not one chosen from the key.
+func c04SignedUnderProtectedAlg(c *Collector, r *Rng) {
+	keys := append(append([]realKey{}, realKeySet(r)...), opaqueKeySet(r)...)
+	for _, k := range keys {
+		signer := k.signer()
+		pcontent := wMap(-1, wInt(1, -1), wInt(int64(k.alg), -1)).Ser()
+		payload := r.Bytes(1 + r.Intn(40))
+		rep := map[string]any{"key": k.name, "alg": k.alg.String()}
+		c.Eval("signed-under-protected-alg/"+k.name, k.alg.String(), true)
+		// COSE_Sign1 with the alg given, and with the alg left to be inserted
+		for _, given := range []bool{true, false} {
+			m := &cose.Sign1Message{Headers: cose.Headers{Protected: cose.ProtectedHeader{}}, Payload: payload}
+			if given {
+				m.Headers.Protected[cose.HeaderLabelAlgorithm] = k.alg
+			}
+			if err := m.Sign(r, nil, signer); err != nil {
+				continue
+			}
+			tbs := refArray(refTstr("Signature1"), refBstr(pcontent), refBstr(nil), refBstr(payload))
+			if !refVerify(k.alg, k.pub, tbs, m.Signature) {
+				c.Fail("C04/signed-under-other-alg", fmt.Sprintf("COSE_Sign1 (alg given=%v): the signature is not valid under %v, the algorithm in the signed protected bytes", given, k.alg), rep)
+			}
+		}
+		// COSE_Signature in a COSE_Sign
+		sm := &cose.SignMessage{Headers: cose.Headers{Protected: cose.ProtectedHeader{}}, Payload: payload, Signatures: []*cose.Signature{{Headers: cose.Headers{Protected: cose.ProtectedHeader{cose.HeaderLabelAlgorithm: k.alg}}}}}
+		if err := sm.Sign(r, nil, signer); err == nil {
+			tbs := refArray(refTstr("Signature"), refBstr(nil), refBstr(pcontent), refBstr(nil), refBstr(payload))
+			if !refVerify(k.alg, k.pub, tbs, sm.Signatures[0].Signature) {
+				c.Fail("C04/signed-under-other-alg", fmt.Sprintf("COSE_Signature: the signature is not valid under %v, the algorithm in the signed protected bytes", k.alg), rep)
+			}
+		}
+		// hash envelope
+		digest := make([]byte, 32)
+		if env, err := cose.SignHashEnvelope(r, signer, cose.Headers{}, cose.HashEnvelopePayload{HashAlgorithm: cose.AlgorithmSHA256, HashValue: digest}); err == nil {
+			if w, perr := refParseFull(env); perr == nil && len(w.Kids) == 1 && len(w.Kids[0].Kids) == 4 {
+				body := w.Kids[0]
+				if a, isInt, present := algInWire(body.Kids[0].Ser()); present && isInt && cose.Algorithm(a) == k.alg {
+					tbs := refArray(refTstr("Signature1"), refBstr(body.Kids[0].Str), refBstr(nil), refBstr(digest))
+					if !refVerify(k.alg, k.pub, tbs, body.Kids[3].Str) {
+						c.Fail("C04/signed-under-other-alg", fmt.Sprintf("hash envelope: the signature is not valid under %v, the algorithm in the signed protected bytes", k.alg), rep)
+					}
+				}
+			}
+		}
+		// full and abbreviated countersignatures
+		parent := &cose.Sign1Message{Headers: cose.Headers{Protected: cose.ProtectedHeader{cose.HeaderLabelAlgorithm: k.alg}}, Payload: payload, Signature: []byte{1, 2, 3}}
+		cs := &cose.Countersignature{Headers: cose.Headers{Protected: cose.ProtectedHeader{cose.HeaderLabelAlgorithm: k.alg}}}
+		if err := cs.Sign(r, signer, parent, nil); err == nil {
+			if tbs, rerr := refCountersign(false, parent, refBstr(pcontent), nil); rerr == nil && !refVerify(k.alg, k.pub, tbs, cs.Signature) {
+				c.Fail("C04/signed-under-other-alg", fmt.Sprintf("countersignature: the signature is not valid under %v, the algorithm in the signed protected bytes", k.alg), rep)
+			}
 		}
 	}
 }
